@@ -619,3 +619,146 @@ def result_edges(fa, s):
                 okb = t["otherwise"]
             return {"ok": okb, "err": errb, "how": "match"}
     return None
+
+
+# ---------------------------------------------------------------- constant evaluation of terms
+def const_lookup(ctx, name):
+    v = ctx.crate.const_val(name)
+    if isinstance(v, int):
+        return v
+    # enum discriminant expression:  path::Enum::Variant::{constant#0}
+    if name.endswith("::{constant#0}"):
+        base = name[: -len("::{constant#0}")]
+        en, _, var = base.rpartition("::")
+        a = ctx.crate.adts.get(en)
+        if a:
+            for v_ in a["variants"]:
+                if v_["name"] == var and "discr" in v_:
+                    return v_["discr"]
+    return None
+
+
+def ev(ctx, t):
+    """integer value of a term if it is a compile-time constant expression"""
+    t0 = t
+    if not isinstance(t, tuple):
+        return None
+    k = t[0]
+    if k == "lit":
+        return t[1]
+    if k == "const":
+        return const_lookup(ctx, t[1])
+    if k == "cast":
+        return ev(ctx, t[1])
+    if k == "field" and t[2] == "0" and t[1][0] == "bin" and t[1][1].endswith("WithOverflow"):
+        return ev(ctx, ("bin", t[1][1][: -len("WithOverflow")], t[1][2], t[1][3]))
+    if k == "bin":
+        a, b = ev(ctx, t[2]), ev(ctx, t[3])
+        if a is None or b is None:
+            return None
+        op = t[1].replace("WithOverflow", "").replace("Unchecked", "")
+        try:
+            return {"Add": a + b, "Sub": a - b, "Mul": a * b, "Div": a // b if b else None, "Rem": a % b if b else None, "Shl": a << b, "Shr": a >> b,
+                    "BitAnd": a & b, "BitOr": a | b, "BitXor": a ^ b}.get(op)
+        except Exception:
+            return None
+    if k == "disc" and t[1][0] == "agg":
+        a = ctx.crate.adts.get(t[1][1])
+        if a:
+            for v_ in a["variants"]:
+                if v_["name"] == t[1][2] and "discr" in v_:
+                    return v_["discr"]
+    if k in ("ok", "some", "await"):
+        return ev(ctx, t[1])
+    return None
+
+
+def unwrap_ovf(t):
+    """normalise `(a +? b).0` to bin(Add, a, b) recursively (for matching)"""
+    if not isinstance(t, tuple):
+        return t
+    if t[0] == "field" and t[2] == "0" and isinstance(t[1], tuple) and t[1][0] == "bin" and t[1][1].endswith("WithOverflow"):
+        return ("bin", t[1][1][: -len("WithOverflow")], unwrap_ovf(t[1][2]), unwrap_ovf(t[1][3]))
+    if t[0] == "cast":
+        return unwrap_ovf(t[1])
+    if t[0] in ("call",):
+        return (t[0], t[1], t[2], tuple(unwrap_ovf(x) for x in t[3]))
+    if t[0] == "join":
+        return ("join", tuple(unwrap_ovf(x) for x in t[1]))
+    if t[0] == "agg":
+        return (t[0], t[1], t[2], tuple((f, unwrap_ovf(o)) for f, o in t[3]))
+    return tuple(unwrap_ovf(x) if isinstance(x, tuple) else x for x in t)
+
+
+def lin(ctx, t, depth=0):
+    """linear form {symbol: coeff, 1: const} of an integer term over params /
+    field paths / a generic loop symbol; None if not linear."""
+    from fractions import Fraction
+    t = unwrap_ovf(t)
+    v = ev(ctx, t)
+    if v is not None:
+        return {1: Fraction(v)}
+    k = t[0]
+    if k in ("param", "field"):
+        p = path_of(t)
+        if p:
+            return {p: Fraction(1)}
+        return {term_str(t): Fraction(1)}
+    if k == "len":
+        return {"len(%s)" % term_str(t[1]): Fraction(1)}
+    if k in ("cycle",):
+        return {"<loop>": Fraction(1)}
+    if k == "call":
+        return {term_str(t): Fraction(1)}
+    if k == "join":
+        non = [x for x in t[1] if not contains(x, lambda s: isinstance(s, tuple) and s and s[0] == "cycle")]
+        cyc = [x for x in t[1] if x not in non]
+        if non and cyc:
+            base = lin(ctx, mkjoin_(non), depth + 1)
+            if base is None:
+                return None
+            base = dict(base)
+            base["<loop>"] = base.get("<loop>", 0) + Fraction(1)
+            return base
+        forms = [lin(ctx, x, depth + 1) for x in t[1]]
+        if all(f is not None for f in forms) and all(f == forms[0] for f in forms):
+            return forms[0]
+        return None
+    if k == "bin":
+        op = t[1]
+        a, b = lin(ctx, t[2], depth + 1), lin(ctx, t[3], depth + 1)
+        if a is None or b is None:
+            return None
+        if op in ("Add", "Sub"):
+            out = dict(a)
+            for s, c in b.items():
+                out[s] = out.get(s, 0) + (c if op == "Add" else -c)
+            return {s: c for s, c in out.items() if c != 0 or s == 1}
+        if op in ("Mul",) and (set(a) <= {1} or set(b) <= {1}):
+            c, f = (a.get(1, 0), b) if set(a) <= {1} else (b.get(1, 0), a)
+            return {s: x * c for s, x in f.items()}
+        if op in ("Div",) and set(b) <= {1} and b.get(1):
+            return {s: x / b[1] for s, x in a.items()}
+        return None
+    return None
+
+
+def mkjoin_(xs):
+    from .analysis import mkjoin
+    return mkjoin(list(xs))
+
+
+def named_local(fa, operand, bi, pos):
+    """user variable an operand is a (copy of a copy of ...) of, or None"""
+    p = op_place(operand)
+    for _ in range(8):
+        if p is None or p["p"]:
+            return None
+        nm = fa.body.local_name(p["l"])
+        if nm:
+            return nm
+        ds = [d for d in fa.body.defs.get(p["l"], []) if not d[3]["p"]]
+        if len(ds) != 1 or ds[0][0] != "assign" or ds[0][4]["k"] != "use":
+            return None
+        p = op_place(ds[0][4]["op"])
+    return None
